@@ -205,6 +205,8 @@ structure Db where
   wcOff : Nat := 0
   curOpen : Bool := false              -- write-cursor file handle open
   openRead : List Nat := []            -- read handles
+  lru : List Nat := []                 -- `openBlocksLRU` (most recent first; may hold closed numbers)
+  dead : List (String × Bool) := []    -- ended transactions whose handle is still used: id, writable
   synced : List (Nat × Nat) := []      -- harness bookkeeping: fsynced length per file touched
   maxFile : Nat
   maxCache : Nat
@@ -381,8 +383,18 @@ def flush : M Bool := do
 def getTx (id : String) : M (Option Tx) := do return (← get).txs.lookup id
 def setTx (id : String) (t : Tx) : M Unit :=
   modify fun d => { d with txs := (id, t) :: d.txs.filter (·.1 != id) }
+
+/-- a new transaction takes over the id: cursors of the previous holder stay closed for good -/
+def beginTx (id : String) (t : Tx) : M Unit := do
+  modify fun d => { d with dead := d.dead.filter (·.1 != id),
+                           curs := d.curs.map (fun (cid, c) => if c.tx == id then (cid, { c with tx := "(closed)" }) else (cid, c)) }
+  setTx id t
+/-- the transaction ends (commit / rollback); its handle and its cursors stay around, closed -/
 def dropTx (id : String) : M Unit :=
-  modify fun d => { d with txs := d.txs.filter (·.1 != id), curs := d.curs.filter (·.2.tx != id) }
+  modify fun d =>
+    match d.txs.lookup id with
+    | some t => { d with txs := d.txs.filter (·.1 != id), dead := (id, t.writable) :: d.dead.filter (·.1 != id) }
+    | none => d
 
 def Tx.get (t : Tx) (k : Key) : Option Val := txGet t.writable t.pKeys t.pRem t.snap k
 def Tx.put (t : Tx) (k : Key) (v : Val) : Tx :=
@@ -440,8 +452,8 @@ def initLdb : KV :=
 
 /-- open an existing directory: scan block files, reconcile with the metadata -/
 def reopen : M String := do
-  modify fun d => { d with txs := [], curs := [], cKeys := [], cRem := [], curOpen := false,
-                           openRead := [], synced := [] }
+  modify fun d => { d with txs := [], curs := [], dead := [], cKeys := [], cRem := [], curOpen := false,
+                           openRead := [], lru := [], synced := [] }
   let d ← get
   let (sf, so) := match d.files.getLast? with
     | some (n, b) => (n, b.length)
@@ -580,8 +592,13 @@ def cursorOp (mv cid : String) (seek : Key) : M (Option String) := do
   | none => return some "nocursor"
   | some c =>
     match d.txs.lookup c.tx with
-    | none => return none
+    | none =>
+      -- the cursor's transaction has ended
+      if mv == "D" then return some "err:TxClosed"
+      else if mv == "B" then return some "0"
+      else return some "0:~"
     | some t =>
+      if mv == "B" then return some "1" else
       if mv == "D" then
         if !t.writable then return some "err:TxNotWritable"
         match c.cur with
@@ -604,10 +621,22 @@ def readIo (file : Nat) : M Bool := do
     -- openFile fails by itself; the hook still counts the attempt
     let _ ← io "open"
     return false
-  if !(file == d.wcFile && d.curOpen) && !d.openRead.contains file then
+  if file == d.wcFile && d.curOpen then
+    pure ()
+  else if d.openRead.contains file then
+    modify fun d => { d with lru := file :: d.lru.filter (· != file) }
+  else
     if !(← io "open") then return false
     touch file
-    modify fun d => { d with openRead := file :: d.openRead }
+    -- at most `maxOpenFiles` entries in the LRU list: the least recently used one goes
+    let d ← get
+    if d.lru.length ≥ 25 then
+      match d.lru.getLast? with
+      | some victim =>
+        if d.openRead.contains victim then let _ ← io "close"
+        modify fun d => { d with lru := d.lru.dropLast, openRead := d.openRead.filter (· != victim) }
+      | none => pure ()
+    modify fun d => { d with openRead := file :: d.openRead, lru := file :: d.lru }
   io "readat"
 
 def blockLoc (t : Tx) (bid : Nat) : Option (Nat × Nat × Nat) :=
@@ -701,12 +730,51 @@ def pruneBlocks (id : String) (t : Tx) (target : Nat) : M String := do
     return "[" ++ "+".intercalate (sorted.map toString) ++ "]"
   | _, _ => return "[]"
 
+/-- `BeenPruned` looks at the directory only -/
+def beenPruned (d : Db) : String :=
+  match d.files.head?, d.files.getLast? with
+  | some (first, _), some (last, _) => if first != 0 && first != last then "1" else "0"
+  | _, _ => "0"
+
+/-- answers of an ended transaction's handle (everything checks `closed` first, except `Writable`,
+`BeenPruned`, `Metadata` and, for the root bucket, `Cursor`) -/
+def deadAnswer (f : List String) (writable : Bool) : M (Option String) := do
+  let root (path : String) (ans : String) : Option String := some (if path == "." then ans else "nobucket")
+  match f with
+  | ["co", _] | ["rb", _] => return some "err:TxClosed"
+  | ["p", _, path, _, _] | ["d", _, path, _] | ["cb", _, path, _] | ["ci", _, path, _] | ["xb", _, path, _] =>
+    return root path "err:TxClosed"
+  | ["fes", _, path, _] | ["feb", _, path, _] => return root path "err:TxClosed"
+  | ["g", _, path, _] => return root path "nil"
+  | ["fe", _, path] => return root path "{}"
+  | ["wr", _, path] => return root path (if writable then "1" else "0")
+  | ["cu", _, cid, path] =>
+    if path == "." then
+      modify fun d => { d with curs := (cid, ⟨"(closed)", metadataBucketID, none⟩) :: d.curs.filter (·.1 != cid) }
+      return some "ok"
+    else return some "nobucket"
+  | ["sb", _, bid, len] =>
+    match bid.toNat?, len.toNat? with
+    | some bid, some len =>
+      modify fun d => if (d.blockIds.find? (·.1 == bid)).isSome then d
+                      else { d with blockIds := d.blockIds ++ [(bid, len)] }
+      return some "err:TxClosed"
+    | _, _ => return none
+  | ["bp", _] => return some (beenPruned (← get))
+  | [op, _, _] =>
+    if ["hb", "fk", "fh", "fks", "frs", "hbs", "fhs", "pr"].contains op then return some "err:TxClosed" else return none
+  | ["fr", _, _, _, _] => return some "err:TxClosed"
+  | _ => return none
+
 def step (op : String) : M (Option String) := do
   let f := op.splitOn ":"
   let withTx (id : String) (k : Tx → M (Option String)) : M (Option String) := do
     match ← getTx id with
     | some t => k t
-    | none => return none
+    | none =>
+      match (← get).dead.lookup id with
+      | some w => deadAnswer f w
+      | none => return none
   let withBucket (id path : String) (k : Tx → Bytes → M (Option String)) : M (Option String) :=
     withTx id fun t =>
       match pathBucket t path with
@@ -715,13 +783,13 @@ def step (op : String) : M (Option String) := do
   match f with
   | ["bw", id] =>
     let d ← get
-    setTx id { writable := true, snap := ⟨d.ldb, d.cKeys, d.cRem⟩ }
+    beginTx id { writable := true, snap := ⟨d.ldb, d.cKeys, d.cRem⟩ }
     return some "ok"
   | ["br", id] =>
     let d ← get
-    setTx id { writable := false, snap := ⟨d.ldb, d.cKeys, d.cRem⟩ }
+    beginTx id { writable := false, snap := ⟨d.ldb, d.cKeys, d.cRem⟩ }
     return some "ok"
-  | ["co", id] => return some (← commit id)
+  | ["co", id] => withTx id fun _ => do return some (← commit id)
   | ["rb", id] => withTx id fun _ => do dropTx id; return some "ok"
   | ["p", id, path, k, v] =>
     match hexToList? k, hexToList? v with
@@ -788,6 +856,34 @@ def step (op : String) : M (Option String) := do
     match nat? bid, nat? off, nat? len with
     | some bid, some off, some len => withTx id fun t => do return some (← fetchRegionM t bid off len)
     | _, _, _ => return none
+  | ["cbk", cid] => cursorOp "B" cid []
+  | ["wr", id, path] => withBucket id path fun t _ => return some (if t.writable then "1" else "0")
+  | ["bp", id] => withTx id fun _ => do return some (beenPruned (← get))
+  | ["hbs", id, ids] =>
+    match (ids.splitOn "+").mapM nat? with
+    | some ids => withTx id fun t =>
+      return some ("+".intercalate (ids.map fun bid =>
+        if (t.pBlocks.find? (·.1 == bid)).isSome ||
+          (t.get (bucketizedKey blockIdxBucketID (blockHash bid))).isSome then "1" else "0"))
+    | none => return none
+  | ["fhs", id, ids] =>
+    match (ids.splitOn "+").mapM nat? with
+    | some ids => withTx id fun t => do return some (← fetchRegionsM t (ids.map fun bid => (bid, 0, 80)))
+    | none => return none
+  | ["fes", id, path, n] =>
+    match nat? n with
+    | some n => withBucket id path fun t b =>
+      let items := (keysView t.flat b).map (kvOut b)
+      let stop := n ≥ 1 && items.length ≥ n
+      return some ("[" ++ ",".intercalate (if stop then items.take n else items) ++ "]" ++ (if stop then "!" else ""))
+    | none => return none
+  | ["feb", id, path, n] =>
+    match nat? n with
+    | some n => withBucket id path fun t b =>
+      let items := (bucketsView t.flat b).map (fun kv => listToHexTok (kv.1.drop 8))
+      let stop := n ≥ 1 && items.length ≥ n
+      return some ("[" ++ ",".intercalate (if stop then items.take n else items) ++ "]" ++ (if stop then "!" else ""))
+    | none => return none
   | ["fks", id, ids] =>
     match (ids.splitOn "+").mapM nat? with
     | some ids => withTx id fun t => do return some (← fetchBlocksM t ids)
@@ -805,6 +901,28 @@ def step (op : String) : M (Option String) := do
     | some target => withTx id fun t => do return some (← pruneBlocks id t target)
     | none => return none
   | ["fl"] => return some (if ← flush then "ok" else "err:DriverSpecific")
+  | ["ro", mf, mc, net] =>
+    match nat? mf, nat? mc, nat? net with
+    | some mf, some mc, some net =>
+      let ok ← flush
+      let d ← get
+      if d.curOpen then let _ ← io "close"
+      modify fun d => { d with maxFile := mf, maxCache := mc, net := net }
+      let r ← reopen
+      if ok then return some r
+      else return some ("close-err:DriverSpecific" ++ (if r == "ok" then "" else r))
+    | _, _, _ => return none
+  | [cp, mf, mc, net] =>
+    if cp == "cp" || cp == "cps" then
+      match nat? mf, nat? mc, nat? net with
+      | some mf, some mc, some net =>
+        if cp == "cps" then modify fun d => { d with files := strictFiles d }
+        let d ← get
+        if d.curOpen then let _ ← io "close"
+        modify fun d => { d with maxFile := mf, maxCache := mc, net := net }
+        return some (← reopen)
+      | _, _, _ => return none
+    else return none
   | ["ro"] =>
     -- Close flushes; a failing flush loses the cache (leveldb is closed regardless)
     let ok ← flush
